@@ -666,7 +666,7 @@ func markerCallEffect(cc *ssa.CallCommon, pk *ssa.Package) int {
 func c08LoopDepth(c *Ctx, tag string, fn, listV *ssa.Function) {
 	r, t := c.R, c.T
 	prm := fn.Params[len(fn.Params)-1]
-	var body *ssa.Call      // the body visit, in fn
+	var body *ssa.Call       // the body visit, in fn
 	var via, inner *ssa.Call // or: fn's call to a helper, and the body visit inside that helper
 	allInstrs(fn, func(in ssa.Instruction) {
 		x, ok := in.(*ssa.Call)
